@@ -629,6 +629,9 @@ class Evaluator:
         if fn.op == "methodalias":
             cur_ = sc.lookup(fn.var)
             fn = T("attr", n.func, mod, obj=cur_ if cur_ is not None else fn.obj, name=fn.attr)
+        if fn.op == "attr" and fn.name == "__getitem__" and len(args) == 1 and args[0].op != "star" and not kw and not dst:
+            # X.__getitem__(k) (also through an alias fetch = X.__getitem__) is the subscription X[k]
+            return self.subscript(fn.obj, args[0], n, mod)
         if fn.op == "if":
             # (A if c else B)(args): the call distributes over the conditional callee
             mk = lambda f_: T("call", n, mod, fn=f_, args=list(args), kw=dict(kw), dstar=list(dst or []), ctx=self._ctx)
